@@ -99,7 +99,8 @@ func (s *SliceKeyIndexLoader) Load(indexPath string, metadata *proto.MetaData) (
 
 	err = reader.Open()
 	if err != nil {
-		return nil, fmt.Errorf("error while opening index reader of sstable in '%s': %w", indexPath, err)
+		// the file is open since the reader was created
+		return nil, errors.Join(fmt.Errorf("error while opening index reader of sstable in '%s': %w", indexPath, err), reader.Close())
 	}
 
 	defer func() {
